@@ -538,7 +538,7 @@ func (w *verifWorld) probeAll() bool {
 	id := fmt.Sprintf("probe%d", w.nextID)
 	w.hub.routeCli <- &ClientComMessage{Id: id, RcptTo: "grpVerifNoSuchTopic", Original: "grpVerifNoSuchTopic",
 		Pub: &MsgClientPub{Id: id, Topic: "grpVerifNoSuchTopic"}, sess: w.probe.s, Timestamp: time.Now()}
-	if !w.waitFrame(w.probe, id, time.Second) {
+	if !w.waitFrame(w.probe, id, 5*time.Second) {
 		return false
 	}
 	// topics: {get desc} placed on the meta channel; the actor answers in order
@@ -561,7 +561,7 @@ func (w *verifWorld) probeAll() bool {
 		return true
 	})
 	for _, id := range ids {
-		if !w.waitFrame(w.probe, id, time.Second) {
+		if !w.waitFrame(w.probe, id, 5*time.Second) {
 			return false
 		}
 	}
@@ -571,11 +571,11 @@ func (w *verifWorld) probeAll() bool {
 
 // quiesce: two consecutive stable rounds of (channels empty -> probe every actor -> channels empty, no new frames).
 func (w *verifWorld) quiesce() error {
-	deadline := time.Now().Add(3 * time.Second)
+	deadline := time.Now().Add(15 * time.Second)
 	stable := 0
 	for stable < 2 {
 		if time.Now().After(deadline) {
-			return errors.New("world did not quiesce within 3s")
+			return errors.New("world did not quiesce within 15s")
 		}
 		if !w.chansEmpty() {
 			stable = 0
@@ -636,11 +636,11 @@ func (w *verifWorld) send(vs *verifSess, msg map[string]any, wantReply bool) err
 		if p != nil {
 			return fmt.Errorf("PANIC in dispatch: %v", p)
 		}
-	case <-time.After(3 * time.Second):
-		return errors.New("dispatch blocked for 3s")
+	case <-time.After(10 * time.Second):
+		return errors.New("dispatch blocked for 10s")
 	}
 	if wantReply && id != "" {
-		if !w.waitFrame(vs, id, 2*time.Second) {
+		if !w.waitFrame(vs, id, 5*time.Second) {
 			// not fatal here: recorded as "no reply"; the monitors decide what that means
 			if err := w.quiesce(); err != nil {
 				return err
